@@ -52,6 +52,7 @@ type Contract struct {
 	Panics   []Clause // panics when <cond>
 	Asserts  []AtAssert
 	Snaps    []Track  // snapshot <name> after call <callee>
+	Assumes   []Clause // assumed at entry of the unit, never checked at call sites (listed as trusted)
 	GhostVars []GhostVar
 	OnCalls   []OnCall
 	Callees  map[string]*Contract // assumed contracts of dynamic callees (function-typed fields, parameters), by source name
@@ -92,12 +93,18 @@ type SpecFun struct {
 }
 
 type Monitor struct {
-	Name       string // e.g. (*Connection).stateMu
+	Name       string // e.g. stateMu
 	PkgPath    string
-	Via        string
-	Protects   []string
+	Via        string // the locked function every access goes through, e.g. (*Connection).updateInFlight
+	ViaKey     string
+	Props      []string
+	StateVar   string // name bound to the protected state inside actions (the parameter of the function literals)
+	StateExpr  Expr   // e.g. &c.state  (over the via-function's receiver)
+	Protects   []Expr
+	CloseOnly  []string // Type.field of channels that are only ever closed (never sent on)
 	Invariants []Clause
 	Trans      []Clause
+	Assumes    []Clause // assumptions made at entry of every action (listed as trusted)
 	File       string
 	Line       int
 }
@@ -127,7 +134,7 @@ var clauseKeywords = map[string]bool{
 	"func": true, "fun": true, "pred": true, "requires": true, "ensures": true, "modifies": true, "pure": true,
 	"ghost": true, "loop": true, "nopanic": true, "trusted": true, "panics": true, "track": true, "global-invariant": true,
 	"monitor": true, "invariant": true, "transition": true, "lemma": true, "axiom": true, "inline": true, "assert": true,
-	"props": true, "params": true, "protects": true, "snapshot": true, "abstract": true, "callee": true, "ghostvar": true, "on": true,
+	"props": true, "params": true, "protects": true, "snapshot": true, "abstract": true, "callee": true, "ghostvar": true, "on": true, "state": true, "closeonly": true, "assume": true,
 }
 
 type rawClause struct {
@@ -303,23 +310,78 @@ func (db *SpecDB) LoadSpecFile(path, pkgPath string) error {
 			}
 			db.Lemmas = append(db.Lemmas, &Lemma{Name: head, PkgPath: pkgPath, Props: props, E: Clause{Label: head, E: e, Src: rc.rest[i+1:], File: path, Line: rc.line}})
 		case "monitor":
-			// monitor <name> [via f] protects a, b
-			fs := strings.Fields(rc.rest)
-			m := &Monitor{Name: fs[0], PkgPath: pkgPath, File: path, Line: rc.line}
+			// monitor <name> via <function> [C01,C02]
+			rest := rc.rest
+			var props []string
+			if j := strings.LastIndex(rest, " ["); j >= 0 && strings.HasSuffix(rest, "]") {
+				for _, p := range strings.Split(rest[j+2:len(rest)-1], ",") {
+					props = append(props, strings.TrimSpace(p))
+				}
+				rest = strings.TrimSpace(rest[:j])
+			}
+			fs := strings.Fields(rest)
+			m := &Monitor{Name: fs[0], PkgPath: pkgPath, File: path, Line: rc.line, Props: props}
 			for i := 1; i < len(fs); i++ {
-				switch fs[i] {
-				case "via":
+				if fs[i] == "via" && i+1 < len(fs) {
 					m.Via = fs[i+1]
+					m.ViaKey = qualify(fs[i+1], pkgPath)
 					i++
-				case "protects":
-					for _, p := range strings.Split(strings.Join(fs[i+1:], " "), ",") {
-						m.Protects = append(m.Protects, strings.TrimSpace(p))
-					}
-					i = len(fs)
 				}
 			}
 			db.Monitors = append(db.Monitors, m)
 			curMon, cur = m, nil
+		case "state":
+			// state s := &c.state
+			if curMon == nil {
+				return fmt.Errorf("%s:%d: state outside monitor", path, rc.line)
+			}
+			i := strings.Index(rc.rest, ":=")
+			if i < 0 {
+				return fmt.Errorf("%s:%d: state needs 'name := expr'", path, rc.line)
+			}
+			curMon.StateVar = strings.TrimSpace(rc.rest[:i])
+			src := strings.TrimSpace(rc.rest[i+2:])
+			src = strings.TrimPrefix(src, "&")
+			e, err := ParseExpr(src)
+			if err != nil {
+				return fmt.Errorf("%s:%d: %v", path, rc.line, err)
+			}
+			curMon.StateExpr = e
+		case "closeonly":
+			if curMon == nil {
+				return fmt.Errorf("%s:%d: closeonly outside monitor", path, rc.line)
+			}
+			for _, p := range strings.Split(rc.rest, ",") {
+				curMon.CloseOnly = append(curMon.CloseOnly, strings.TrimSpace(p))
+			}
+		case "protects":
+			if curMon == nil {
+				return fmt.Errorf("%s:%d: protects outside monitor", path, rc.line)
+			}
+			for _, part := range splitTop(rc.rest, ',') {
+				e, err := ParseExpr(part)
+				if err != nil {
+					return fmt.Errorf("%s:%d: %v", path, rc.line, err)
+				}
+				curMon.Protects = append(curMon.Protects, e)
+			}
+		case "assume":
+			if curMon == nil && cur == nil {
+				return fmt.Errorf("%s:%d: assume outside monitor/func", path, rc.line)
+			}
+			if curMon != nil {
+				c, err := mk(rc, fmt.Sprint(len(curMon.Assumes)+1))
+				if err != nil {
+					return err
+				}
+				curMon.Assumes = append(curMon.Assumes, c)
+			} else {
+				c, err := mk(rc, fmt.Sprint(len(cur.Assumes)+1))
+				if err != nil {
+					return err
+				}
+				cur.Assumes = append(cur.Assumes, c)
+			}
 		case "invariant":
 			if curMon == nil {
 				return fmt.Errorf("%s:%d: invariant outside monitor (use 'loop n: invariant' in functions)", path, rc.line)
